@@ -792,6 +792,21 @@ def check_C06(work, tier, seed):
     lines += backend_sweep(work, b, "C06", seed + 1001, lambda cf: gen_par_c06(seed + 1001, tier, cf), out)
     lines += backend_sweep(work, b, "C06", seed + 1002, lambda cf: graph_par_scenarios(work, seed + 1002, cf, Outcome()), out)
     graph_par_scenarios(work, seed, lambda k: 2, out, kinds=())
+    # the same on the GUARD-OFF library with the CPU itself changed (CPUID answered by the driver): an
+    # SSE2-only machine and a machine without SIMD must give what caps 1 and 0 gave (hook H2 is faithful)
+    b0 = build(work, name="nohook", hooks=False)
+    if cpuid_faulting_available(b0):
+        for label, cpu, cap in (("SSE2-only CPU", "cpu maxleaf=13 sse2=1 osxsave=1 avx2=0 top=0 noise=1", 1),
+                                ("CPU without SIMD", "cpu maxleaf=13 sse2=0 osxsave=0 avx2=0 top=0 noise=1", 0)):
+            for gi, gen in enumerate((lambda cf: gen_ctr(seed + 1000, tier, cf, c06=True),
+                                      lambda cf: gen_par_c06(seed + 1001, tier, cf))):
+                capped = gen(lambda k, cap=cap: cap).text()
+                # reference: the very trace the sweep above validated for this cap (traces are deterministic)
+                ref_cap = run_drv(b, capped)
+                text = strip_caps(capped).replace("env\nlayout\n", "env\nlayout\n%s\n" % cpu, 1)
+                axis_compare(work, "C06", seed, out, ref_cap, "guard-off build on an emulated %s" % label, b0, text,
+                             "-cpu%d-%d" % (cap, gi))
+        out.notes.append("guard-off library on emulated CPUs (SSE2-only, no SIMD): traces identical to caps 1 / 0")
     note_distinct(out, lines, ("o", "n", "ctr", "cap"))
     out.samples = sample_events([x for x in lines if '"ctr_' in x])
     return out, dict(
